@@ -1,1 +1,11 @@
-fn main(){}
+//! Rust side of the differential-testing harness; see /verif/PROTOCOL.md.
+
+#[path = "../serve/mod.rs"]
+mod serve;
+
+#[global_allocator]
+static GLOBAL: serve::alloc::Counting = serve::alloc::Counting;
+
+fn main() {
+    serve::main();
+}
